@@ -304,6 +304,10 @@ where
         self.session.on_incoming_flow(flow).await
     }
 
+    fn on_incoming_transfer_frame(&mut self) {
+        self.session.on_incoming_transfer_frame()
+    }
+
     async fn on_incoming_transfer(
         &mut self,
         transfer: Transfer,
